@@ -88,19 +88,13 @@ func TestVerif_C01_h3body(t *testing.T) {
 	n := verifh.N(1500, 12000)
 	rt := &SingleDestinationRoundTripper{}
 	for i := 0; i < n; i++ {
-		ga, gb := 1+r.Intn(250), r.Intn(251)
-		size := verifh.Pick(r, []int{0, 1, 2, 62, 63, 64, 65, 100, 4095, 4096, 4097, 8191, 8192, 8193, 16383, 16384, 16385, 24576, 65536, 100 << 10})
-		if r.Intn(3) == 0 {
-			size = r.Intn(40000)
-		}
+		// the body reader comes from the ONE generator shared by the three body lanes
+		sc := verifh.C01GenReaderScript(r, []int{0, 1, 2, 62, 63, 64, 65, 100, 4095, 4096, 4097, 8191, 8192, 8193, 16383, 16384, 16385, 24576, 65536, 100 << 10}, 40000,
+			[]int{63, 64, 512, 4096, 8191, 8192, 8193, 16384, 40000})
 		if verifh.Thorough() && i%200 == 0 {
-			size = 1<<20 + r.Intn(3) - 1
+			sc.N = 1<<20 + r.Intn(3) - 1
 		}
-		var sizes []int
-		for k, m := 0, r.Intn(7); k < m; k++ {
-			sizes = append(sizes, verifh.Pick(r, []int{0, 1, 7, 63, 64, 512, 4096, 8191, 8192, 8193, 16384, 40000}))
-		}
-		ending := verifh.Pick(r, []string{"eof", "eof", "eof", "eofl", "eofl", "err", "errl"})
+		ga, gb, size, sizes, ending := sc.Ga, sc.Gb, sc.N, sc.Sizes, sc.Ending
 		human := fmt.Sprintf("body=%d sizes=%v ending=%s", size, sizes, ending)
 		id := fmt.Sprintf("h3body-%d", i)
 		s.Begin(id, human)
